@@ -152,19 +152,25 @@ Definition parse_chunk (bytes : list Z) : chunk_parse :=
 Record cut_result := mkCut { cr_units : list (list Z); cr_end : option Z; cr_calls : list bool }.
 
 (* [cur]: current_work_unit; fuel = number of bytes + 1 suffices (every call consumes a byte or ends) *)
-Fixpoint cut_bytes (fuel : nat) (bytes cur : list Z) (units : list (list Z)) (calls : list bool) : cut_result :=
+Fixpoint cut_bytes (eof : option Z) (fuel : nat) (bytes cur : list Z) (units : list (list Z)) (calls : list bool) : cut_result :=
   match fuel with
   | O => mkCut (rev units) (Some E_OTHER) (rev calls)
   | S n =>
       match parse_chunk bytes with
       | PEof =>
-          (* Ok(false); the caller sends what is left, without a terminator *)
-          match cur with
-          | [] => mkCut (rev units) None (rev (false :: calls))
-          | _ => mkCut (rev (cur :: units)) None (rev (true :: calls))
+          match eof with
+          | Some e => mkCut (rev units) (Some e) (rev (false :: calls))   (* the inner reader failed *)
+          | None =>
+              (* Ok(false); the caller sends what is left, without a terminator *)
+              match cur with
+              | [] => mkCut (rev units) None (rev (false :: calls))
+              | _ => mkCut (rev (cur :: units)) None (rev (true :: calls))
+              end
           end
       | PTerm _ => mkCut (rev ((cur ++ [0%Z]) :: units)) None (rev (true :: calls))
-      | PErr e =>
+      | PErr e0 =>
+          (* running out of bytes inside a chunk is the inner reader's error, if it has one *)
+          let e := match eof with Some e1 => if (e0 =? E_UNEXPECTED_EOF)%Z then e1 else e0 | None => e0 end in
           (* a dictionary-reset control byte dispatches the gathered unit before the header is read *)
           match bytes, cur with
           | c :: _, _ :: _ =>
@@ -175,12 +181,15 @@ Fixpoint cut_bytes (fuel : nat) (bytes cur : list Z) (units : list (list Z)) (ca
           end
       | PChunk k rest =>
           if chunk_independent k && negb (is_nil cur)
-          then cut_bytes n rest (c_bytes k) ((cur ++ [0%Z]) :: units) (true :: calls)
-          else cut_bytes n rest (cur ++ c_bytes k) units (false :: calls)
+          then cut_bytes eof n rest (c_bytes k) ((cur ++ [0%Z]) :: units) (true :: calls)
+          else cut_bytes eof n rest (cur ++ c_bytes k) units (false :: calls)
       end
   end.
 
-Definition cut_lzma2 (bytes : list Z) : cut_result := cut_bytes (S (length bytes)) bytes [] [] [].
+Definition cut_lzma2 (bytes : list Z) : cut_result := cut_bytes None (S (length bytes)) bytes [] [] [].
+(* the inner reader delivers [n] bytes and then fails with error kind [e] *)
+Definition cut_lzma2_io (bytes : list Z) (n : nat) (e : Z) : cut_result :=
+  if Nat.leb n (length bytes) then cut_bytes (Some e) (S n) (firstn n bytes) [] [] [] else cut_lzma2 bytes.
 
 (* ------------------------------------------------------------------------------------------ *)
 (* LZIP reader: scan_members.  HEADER_SIZE = 6, TRAILER_SIZE = 20; member_size = bytes 12..19 of
